@@ -32,6 +32,10 @@ type UpSpec struct {
 	Writes int    `json:"writes_phase_a"`
 	// AckTimeoutMs configures WithUpstreamAckTimeout (0 = library default: no ack timeout).
 	AckTimeoutMs int `json:"ack_timeout_ms,omitempty"`
+	// CloseEarly: the application calls Close right after its phase-A writes (acks partly withheld, the armed fault
+	// possibly among those chunks): the drain wait of Close spans the outage. CloseTimeoutMs: close timeout (default 5 s).
+	CloseEarly     bool `json:"close_right_after_phase_a,omitempty"`
+	CloseTimeoutMs int  `json:"close_timeout_ms,omitempty"`
 }
 
 type DownSpec struct {
@@ -41,12 +45,13 @@ type DownSpec struct {
 // Fault is one injected transport failure plus how the broker/network behaves for the following recovery.
 type Fault struct {
 	Trigger         memnet.Trigger   `json:"trigger"`
-	DialErrors      int              `json:"dial_errors"`                  // the next n dials fail
-	DialDelayMs     int              `json:"dial_delay_ms"`                // every following dial takes this long
-	ResumeConflicts int              `json:"resume_conflicts"`             // conflict answers before the resume succeeds (every upstream)
-	RefuseResumeOf  int              `json:"refuse_resume_of"`             // index+1 of the upstream whose resume is refused (0 = none)
-	CutResumeOf     int              `json:"cut_resume_of"`                // index+1 of the upstream whose resume exchange is cut (0 = none)
-	NextLink        []memnet.Trigger `json:"next_link_triggers,omitempty"` // armed on the link of the following redial (handshake / resume exchange)
+	DialErrors      int              `json:"dial_errors"`                     // the next n dials fail
+	DialDelayMs     int              `json:"dial_delay_ms"`                   // every following dial takes this long
+	ResumeConflicts int              `json:"resume_conflicts"`                // conflict answers before the resume succeeds (every upstream)
+	DownConflicts   int              `json:"down_resume_conflicts,omitempty"` // conflict answers before the resume succeeds (every downstream)
+	RefuseResumeOf  int              `json:"refuse_resume_of"`                // index+1 of the upstream whose resume is refused (0 = none)
+	CutResumeOf     int              `json:"cut_resume_of"`                   // index+1 of the upstream whose resume exchange is cut (0 = none)
+	NextLink        []memnet.Trigger `json:"next_link_triggers,omitempty"`    // armed on the link of the following redial (handshake / resume exchange)
 }
 
 type Scenario struct {
@@ -66,8 +71,11 @@ type Scenario struct {
 	// SlowHandler: the application's connection-level event handler ("disconnected" | "reconnected") takes SlowHandlerMs
 	// (virtual); the library calls these handlers inline in its reconnect loop.
 	// CloseFails: the transport's Close reports an error after closing ("broken": on a broken link only).
-	CloseFails  string `json:"transport_close_reports_error,omitempty"`
-	SlowHandler string `json:"slow_event_handler,omitempty"`
+	CloseFails string `json:"transport_close_reports_error,omitempty"`
+	// AliasFromZero: the broker hands out upstream stream aliases from 0 on every connection (a legal value, and the
+	// value a refused response carries)
+	AliasFromZero bool   `json:"upstream_aliases_from_zero,omitempty"`
+	SlowHandler   string `json:"slow_event_handler,omitempty"`
 	// Census: after everything was closed (client and broker side) wait five virtual minutes and list the library
 	// goroutines that are still alive in the bubble.
 	Census        bool `json:"goroutine_census_after_close,omitempty"`
@@ -116,6 +124,8 @@ type UpOutcome struct {
 	Resumed           int
 	ClosedErrs        []string
 	WriteStreamClosed bool
+	ClosedEarly       bool    // Close was called right after phase A (Spec.CloseEarly) and has returned
+	EarlyCloseSecs    float64 // how long that Close took (virtual)
 }
 
 type DownOutcome struct {
@@ -419,6 +429,7 @@ func Run(s Scenario) *Outcome {
 		}
 	}
 	w.Net.CloseFails = s.CloseFails
+	w.B.P.UpAliasFromZero = s.AliasFromZero
 	slowLogSlack := 4*time.Duration(s.SlowLogMs)*time.Millisecond + 4*time.Duration(s.SlowHandlerMs)*time.Millisecond
 	conn, err := w.Connect(opts...)
 	if err != nil {
@@ -436,13 +447,18 @@ func Run(s Scenario) *Outcome {
 		writers      atomic.Int64 // every writer goroutine gets its own writer id: order is only defined per writer
 		resumed      atomic.Int64
 		streamClosed atomic.Bool
+		closing      atomic.Bool // CloseEarly: Close has been called - the application writes no more
 	}
 	var ups []*upRT
 	for i, us := range s.Ups {
 		u := &upRT{out: &UpOutcome{Spec: us}}
 		rec := uplib.NewRecorder(w.Clock)
 		u.out.Rec = rec
-		uo := append(rec.Options(), iscp.WithUpstreamQoS(qos(us.QoS)), iscp.WithUpstreamCloseTimeout(5*time.Second))
+		closeTO := 5 * time.Second
+		if us.CloseTimeoutMs > 0 {
+			closeTO = time.Duration(us.CloseTimeoutMs) * time.Millisecond
+		}
+		uo := append(rec.Options(), iscp.WithUpstreamQoS(qos(us.QoS)), iscp.WithUpstreamCloseTimeout(closeTO))
 		if us.AckTimeoutMs > 0 {
 			uo = append(uo, iscp.WithUpstreamAckTimeout(time.Duration(us.AckTimeoutMs)*time.Millisecond))
 		}
@@ -524,6 +540,13 @@ func Run(s Scenario) *Outcome {
 				w.B.Unlock()
 			}
 		}
+		if f.DownConflicts > 0 {
+			for _, ds := range w.B.Downs() {
+				w.B.Lock()
+				ds.ResumeConflicts = f.DownConflicts
+				w.B.Unlock()
+			}
+		}
 		w.Net.FailNextDials(f.DialErrors)
 		w.Net.SetDialDelay(time.Duration(f.DialDelayMs) * time.Millisecond)
 		tr := f.Trigger
@@ -541,6 +564,9 @@ func Run(s Scenario) *Outcome {
 	write := func(u *upRT, n int, gap time.Duration) {
 		wid := int(u.writers.Add(1))
 		for k := 0; k < n; k++ {
+			if u.closing.Load() {
+				return
+			}
 			cn := k + 1
 			ctx, c := context.WithTimeout(bg, callT)
 			err := u.out.Rec.Write(ctx, u.up, wid, id, []int{cn}, []int{40})
@@ -554,12 +580,28 @@ func Run(s Scenario) *Outcome {
 			}
 		}
 	}
-	var wg sync.WaitGroup
+	var wg, earlyWG sync.WaitGroup
 	for _, u := range ups {
 		wg.Add(1)
 		go func(u *upRT) {
 			defer wg.Done()
 			write(u, u.out.Spec.Writes, 10*time.Millisecond)
+			if u.out.Spec.CloseEarly {
+				// not part of wg: the withheld acks Close waits for are released after wg.Wait() below
+				u.closing.Store(true)
+				earlyWG.Add(1)
+				go func() {
+					defer earlyWG.Done()
+					t0 := time.Now()
+					ctx, c := context.WithTimeout(bg, 10*time.Minute)
+					if err := u.up.Close(ctx); err != nil {
+						u.out.CloseErr = err.Error()
+					}
+					c()
+					u.out.EarlyCloseSecs = time.Since(t0).Seconds()
+					u.out.ClosedEarly = true
+				}()
+			}
 		}(u)
 	}
 	// downstream traffic: the broker pushes a chunk every 10 ms to every downstream on the current link
@@ -724,6 +766,9 @@ func Run(s Scenario) *Outcome {
 			}(u)
 		}
 		// recovery: a newer healthy link with a completed connect exchange and equal notification counts
+		// a silent failure is noticed one keepalive interval plus one timeout (= 2 x PingMs) after it happened; a history
+		// holds up to three of them (the fault, a second one on the retry's link, a cut resume)
+		recoverT := recoverT + 6*time.Duration(s.PingMs)*time.Millisecond
 		deadline := time.Now().Add(recoverT)
 		ok := false
 		for time.Now().Before(deadline) {
@@ -764,11 +809,15 @@ func Run(s Scenario) *Outcome {
 	}
 	time.Sleep(20*time.Second + slowLogSlack)
 	synctest.Wait()
+	earlyWG.Wait()
 	// phase B writes + probes
 	for _, u := range ups {
 		write(u, s.WritesB, time.Millisecond)
 	}
 	for _, u := range ups {
+		if u.out.Spec.CloseEarly {
+			continue
+		}
 		// probe: one write + flush must be transmitted on the current link and acknowledged (ack hook fires)
 		_, _, acksBefore, _ := u.out.Rec.Snapshot()
 		ctx, c := context.WithTimeout(bg, callT)
@@ -815,6 +864,9 @@ func Run(s Scenario) *Outcome {
 	readWG.Wait()
 	// close everything
 	for _, u := range ups {
+		if u.out.Spec.CloseEarly {
+			continue
+		}
 		ctx, c := context.WithTimeout(bg, callT)
 		if err := u.up.Close(ctx); err != nil {
 			u.out.CloseErr = err.Error()
